@@ -186,6 +186,7 @@ def check_pair(name, source_is, f_ca, sym_expr, f_ref_builder, var_names, stats)
     ir = IR(f_ca)
     stats["functions"].append(dict(function=name, instructions=ir.n_instr))
     D = IteDomain()
+    D.parity = True
     D.snap = True
     vars_ = {n: z3.Real(n) for n in var_names}
     ins = [[("r", vars_[n])] for n in var_names]
